@@ -346,6 +346,9 @@ def do_check(args, prop, tier, scratch, t_start):
     log(f"VIOLATION property={prop} replay={path}")
     log(f"  oracle={v.get('oracle')} leg={v.get('_leg')} seed={v.get('_seed')}: "
         f"{v.get('message')}")
+    if 'replay_reproduced' in entry:
+      log(f"  replayed in a fresh interpreter: reproduced={entry['replay_reproduced']} "
+          f"digest_equal={entry.get('replay_digest_equal')}")
     exit_code = 1
   if harness_errors:
     for e in harness_errors[:10]:
